@@ -221,6 +221,128 @@ theorem admin_available_while_paused (ext : Ext) (cfg : Cfg) (st : Store) (led :
    fun h l a => ⟨_, (setMaxBurnAmountPerMessage_ok ..).mpr ⟨h, rfl⟩⟩,
    fun h n hv => ⟨_, (updateOwner_ok ..).mpr ⟨h, hv, rfl⟩⟩⟩
 
+/-! ### administrative actions do not look at the pause flags; unpausing restores the store -/
+
+/-- setting a key outside a prefix does not change what a prefix scan sees. -/
+theorem scan_set_other (s : Store) (k : Bytes) (v : Val) (p : Bytes) (h : isPrefixOf p k = false) :
+    (s.set k v).scan p = s.scan p := by
+  induction s with
+  | nil => simp [Store.set, Store.scan, h]
+  | cons e rest ih =>
+    obtain ⟨k', v'⟩ := e
+    simp only [Store.set]
+    split
+    · rename_i e; subst e; simp [Store.scan, h]
+    · split
+      · simp [Store.scan, h]
+      · simp only [Store.scan, List.filter_cons] at ih ⊢
+        rw [ih]
+
+/-- the two pause-flag keys. -/
+def isFlagKey (k : Bytes) : Prop := k = Key.burnPaused ∨ k = Key.sendPaused
+
+theorem flag_cls {k : Bytes} (h : isFlagKey k) : Key.cls k = 5 ∨ Key.cls k = 6 := by
+  rcases h with rfl | rfl <;> simp
+
+theorem flag_not_attester_prefix {k : Bytes} (h : isFlagKey k) : isPrefixOf AttesterKeyPrefix k = false := by
+  rcases h with rfl | rfl <;> decide
+
+section
+variable (st : Store) (k : Bytes) (b : Bool) (hk : isFlagKey k)
+include hk
+
+theorem get_setflag {k2 : Bytes} (h : Key.cls k2 ≠ 5 ∧ Key.cls k2 ≠ 6) : (st.set k (.flag b)).get k2 = st.get k2 := by
+  apply Store.get_set_other
+  intro e; subst e
+  rcases flag_cls hk with h' | h' <;> omega
+
+theorem getRole_setflag {k2 : Bytes} (h : Key.cls k2 ≤ 4) : getRole (st.set k (.flag b)) k2 = getRole st k2 := by
+  unfold getRole; rw [get_setflag st k b hk (by omega)]
+theorem getThreshold_setflag : getThreshold (st.set k (.flag b)) = getThreshold st := by
+  unfold getThreshold; rw [get_setflag st k b hk (by simp)]
+theorem getAttester_setflag (a : Bytes) : getAttester (st.set k (.flag b)) a = getAttester st a := by
+  unfold getAttester; rw [get_setflag st k b hk (by simp)]
+theorem getPair_setflag (ext : Ext) (d : Nat) (t : Bytes) : getPair ext (st.set k (.flag b)) d t = getPair ext st d t := by
+  unfold getPair; rw [get_setflag st k b hk (by simp)]
+theorem getMessenger_setflag (d : Nat) : getMessenger (st.set k (.flag b)) d = getMessenger st d := by
+  unfold getMessenger; rw [get_setflag st k b hk (by simp)]
+theorem attestersOf_setflag : attestersOf (st.set k (.flag b)) = attestersOf st := by
+  unfold attestersOf; rw [scan_set_other _ _ _ _ (flag_not_attester_prefix hk)]
+end
+
+/-- **Administrative actions stay available while paused — at full strength**: the outcome (success or
+    failure, writes, events) of every one of the 18 privileged transaction types is the same whatever
+    the two pause flags hold; no administrative handler reads them. -/
+theorem admin_ignores_pause_flags (ext : Ext) (cfg : Cfg) (st : Store) (led : Ledger) (m : Msg) (k : Bytes) (b : Bool)
+    (hk : isFlagKey k) (hm : C10.privileged m = true) :
+    handle ext cfg (st.set k (.flag b)) led m = handle ext cfg st led m := by
+  have r0 := getRole_setflag st k b hk (k2 := Key.owner) (by simp)
+  have r1 := getRole_setflag st k b hk (k2 := Key.pendingOwner) (by simp)
+  have r2 := getRole_setflag st k b hk (k2 := Key.attesterManager) (by simp)
+  have r3 := getRole_setflag st k b hk (k2 := Key.pauser) (by simp)
+  have r4 := getRole_setflag st k b hk (k2 := Key.tokenController) (by simp)
+  cases m <;> simp [C10.privileged, C10.roleKey] at hm <;>
+    simp [handle, acceptOwner, addRemoteTokenMessenger, removeRemoteTokenMessenger, enableAttester, disableAttester,
+      updateSignatureThreshold, setFlag, linkTokenPair, unlinkTokenPair, setMaxBurnAmountPerMessage, updateOwner, updateRole,
+      updateMaxMessageBodySize, r0, r1, r2, r3, r4,
+      getThreshold_setflag st k b hk, getAttester_setflag st k b hk, getPair_setflag st k b hk, getMessenger_setflag st k b hk,
+      attestersOf_setflag st k b hk]
+
+theorem set_set (s : Store) (k : Bytes) (v v' : Val) : (s.set k v).set k v' = s.set k v' := by
+  induction s with
+  | nil => simp [Store.set]
+  | cons e rest ih =>
+    obtain ⟨k', w⟩ := e
+    simp only [Store.set]
+    split
+    · rename_i e; subst e; simp [Store.set]
+    · rename_i hne
+      split
+      · simp [Store.set]
+      · rename_i hlt
+        simp only [Store.set, hne, if_false, hlt, ih]
+        simp
+
+/-- the store after the pauser's pause / unpause of a flag. -/
+theorem deliver_setFlag (ext : Ext) (cfg : Cfg) (w : World) (f : List Bool) (fr : Bytes)
+    (hp : getRole w.store Key.pauser = some fr) :
+    (deliver ext cfg w f (.pauseBurning fr)).1.store = w.store.set Key.burnPaused (.flag true) ∧
+    (deliver ext cfg w f (.unpauseBurning fr)).1.store = w.store.set Key.burnPaused (.flag false) ∧
+    (deliver ext cfg w f (.pauseSending fr)).1.store = w.store.set Key.sendPaused (.flag true) ∧
+    (deliver ext cfg w f (.unpauseSending fr)).1.store = w.store.set Key.sendPaused (.flag false) := by
+  have key : ∀ (k : Bytes) (v : Bool) (kind : EvKind) (m : Msg),
+      handle ext cfg w.store { w.ledger with faults := f } m = setFlag w.store { w.ledger with faults := f } k v kind fr →
+      (deliver ext cfg w f m).1.store = w.store.set k (.flag v) := by
+    intro k v kind m hm
+    unfold deliver
+    rw [hm, (setFlag_ok ..).mpr ⟨hp, rfl⟩]
+    simp [C15.adminOut_writes, Store.applyAll, Store.apply]
+  exact ⟨key _ _ .burningAndMintingPaused _ rfl, key _ _ .burningAndMintingUnpaused _ rfl,
+    key _ _ .sendingAndReceivingPaused _ rfl, key _ _ .sendingAndReceivingUnpaused _ rfl⟩
+
+/-- **Unpausing restores the previous behaviour**: from a state in which a flag is stored as "not paused",
+    the pauser's pause followed by unpause of that flag gives back the identical store — hence identical
+    results for every later transaction and query (the ledger is not touched by either). -/
+theorem unpause_restores (ext : Ext) (cfg : Cfg) (w : World) (f1 f2 : List Bool) (fr : Bytes) (hwf : w.store.WF)
+    (hp : getRole w.store Key.pauser = some fr) :
+    (w.store.get Key.burnPaused = some (.flag false) →
+      (deliver ext cfg (deliver ext cfg w f1 (.pauseBurning fr)).1 f2 (.unpauseBurning fr)).1.store = w.store) ∧
+    (w.store.get Key.sendPaused = some (.flag false) →
+      (deliver ext cfg (deliver ext cfg w f1 (.pauseSending fr)).1 f2 (.unpauseSending fr)).1.store = w.store) := by
+  obtain ⟨d1, _, d3, _⟩ := deliver_setFlag ext cfg w f1 fr hp
+  constructor
+  · intro hb
+    have hp' : getRole (deliver ext cfg w f1 (.pauseBurning fr)).1.store Key.pauser = some fr := by
+      rw [d1, getRole_setflag _ _ _ (Or.inl rfl) (by simp)]; exact hp
+    rw [(deliver_setFlag ext cfg _ f2 fr hp').2.1, d1, set_set]
+    exact pause_idempotent.set_same_wf _ _ _ hwf hb
+  · intro hb
+    have hp' : getRole (deliver ext cfg w f1 (.pauseSending fr)).1.store Key.pauser = some fr := by
+      rw [d3, getRole_setflag _ _ _ (Or.inr rfl) (by simp)]; exact hp
+    rw [(deliver_setFlag ext cfg _ f2 fr hp').2.2.2, d3, set_set]
+    exact pause_idempotent.set_same_wf _ _ _ hwf hb
+
+
 /-! non-vacuity -/
 example : sendPaused [(Key.sendPaused, .flag true)] = true ∧ burnPaused [(Key.sendPaused, .flag true)] = false := by decide
 
